@@ -338,13 +338,15 @@ func (p *parser) primary() *Node {
 	}
 	t := p.peek()
 	if t.K == TLParen {
+		save := p.pos
 		p.next()
 		n := p.or()
-		if p.peek().K != TRParen {
-			return p.fail()
+		if !p.bad && p.peek().K == TRParen {
+			p.next()
+			return n
 		}
-		p.next()
-		return n
+		// not a parenthesised condition: under the permissive reading it may be a parenthesised operand
+		p.pos, p.bad = save, false
 	}
 	if t.K == TWord && keyword(t) == "" {
 		if arity, isFn := condFuncs[t.S]; isFn && p.t[p.pos+1].K == TLParen {
